@@ -332,7 +332,7 @@ func joinFilter(a []any, sep func(string) string) any {
 	s := sep(" ")
 	for _, v := range a {
 		if v = values.ToLiquid(v); v != nil {
-			ss = append(ss, fmt.Sprint(v))
+			ss = append(ss, values.Sprint(v))
 		}
 	}
 	return strings.Join(ss, s)
